@@ -49,6 +49,9 @@ TEXTS = [
     "/* c */ a = 'unterminated\n",                    # comment, then dies in a quote
     "/* c */ k = 5 <unclosed\n",                      # ... in a units expression
     "/* c */\nn = 16#FF\n",                           # ... in a based number
+    # block keywords in capitals, then names that only UPPER-CASE to them
+    "BEGIN_GROUP = g\n a = 1\nEND_GROUP = g\nBEGIN_OBJECT = o\nEND_OBJECT\nEND\n",
+    "beg\u0131n_group = 5\nBEG\u0131N_OBJECT = 6\nx = fal\u017fe\nEND\n",
 ]
 PARSERS = ("PVL", "ODL", "PDS3", "ISIS", "default", "lenient-PVL", "lenient-ODL")
 # how the long-lived instance is called: directly, through pvl.loads/load with
@@ -95,7 +98,9 @@ def other_pair(pvl, reader):
     return o.grammar, o.decoder
 
 
-def observe_parse(pvl, parser, text, call="parse", reader=None):
+def observe_parse(pvl, parser, text, call="parse", reader=None, keep=None):
+    """keep: a list that receives the returned module itself (what an earlier
+    call handed back must not change when the instance is used again)."""
     try:
         with common.cpu_limit(30):
             if call == "parse":
@@ -107,6 +112,8 @@ def observe_parse(pvl, parser, text, call="parse", reader=None):
             else:
                 g, d = other_pair(pvl, reader)
                 m = pvl.loads(text, parser=parser, grammar=g, decoder=d)
+        if keep is not None:
+            keep.append(m)
         return ("ok", snapshot(m), tuple(getattr(m, "errors", ())))
     except common.CaseTimeout:
         return ("timeout",)
@@ -156,8 +163,26 @@ def parser_histories(rec, hb, pvl, tier, seed, part, nparts, pristine):
             rec.case(("parser", reader, h), len(h) >= 2,
                      sample={"parser": reader, "history": show}
                      if n % 4001 == 0 else None)
+            handed_back = []      # (module, what it looked like when returned)
             for step, (ci, ti) in enumerate(h):
-                got = observe_parse(pvl, inst, TEXTS[ti], PCALLS[ci], reader)
+                kept = []
+                got = observe_parse(pvl, inst, TEXTS[ti], PCALLS[ci], reader, keep=kept)
+                # results of earlier calls are the caller's: still the same?
+                for k2, (m0, was) in enumerate(handed_back):
+                    now = ("ok", snapshot(m0), tuple(getattr(m0, "errors", ())))
+                    rec.count("earlier_results_looked_at_again")
+                    if now != was:
+                        rec.violation(
+                            CHECK, reader, "earlier-result-changed-by-a-later-call",
+                            {"what": "errors" if now[1] == was[1] else "content"},
+                            {"parser": reader, "history": show[:step + 1],
+                             "result_of_step": k2},
+                            f"the module returned by step {k2} was {was!r:.150} and "
+                            f"is {now!r:.150} after step {step}")
+                        handed_back = []
+                        break
+                if kept:
+                    handed_back.append((kept[0], got))
                 want = fresh(reader, PCALLS[ci], TEXTS[ti])
                 rec.count("parser_steps_compared")
                 rec.count(f"parser_calls[{PCALLS[ci]}]")
@@ -598,7 +623,7 @@ def finish_kwargs(rec, tier):
                                   "and over the module set (encoders; every "
                                   "third history in the quick tier)"},
         required_counters=("parser_steps_compared", "encoder_steps_compared",
-                           "soak_steps_compared",
+                           "soak_steps_compared", "earlier_results_looked_at_again",
                            "decoder_steps_compared", "shared_object_steps_compared",
                            "shared_table_steps_compared",
                            "shared_writer_steps_compared",
